@@ -20,7 +20,14 @@ import os
 import re
 import threading
 
-from ..core import BUILD, hx, parallel_map, unhxs
+from ..core import BUILD, hx, unhxs
+from ..core import parallel_map as _parallel_map
+
+
+def parallel_map(fn, items):
+    """core.parallel_map; VERIF_WORKERS=<n> limits the number of concurrent delta processes (shared machine)."""
+    w = int(os.environ.get("VERIF_WORKERS", "0") or 0)
+    return _parallel_map(fn, items, workers=w or None)
 
 DRIVERS = ["drv_opts"]
 GENERATED = ["OptionsTables"]
@@ -51,6 +58,7 @@ PROBES = {
     "width": "int",                 # Option<String> getter
     "pager": "string",              # Option<String> getter
     "max-line-distance": "float",   # f64 getter
+    "max-line-length": "int",       # usize getter (side-by-side sets it to 0: probed without side-by-side only)
 }
 # one probe (at least) per `impl GitConfigGet for T`
 GETTER_PROBES = {"String": ["file-modified-label", "file-style"], "Option<String>": ["width", "pager"],
@@ -101,19 +109,95 @@ def split_ws(s):
     return s.split()
 
 
+# ------------------------------------------------------------------ git's reading of a value (oracle side)
+# The documented meaning of a git config value read as a type (git-config(1) "Values": boolean — true/yes/on/1,
+# false/no/off/0/empty, a key without "= value" is true; integer — decimal, hexadecimal or octal with an optional
+# k/m/g suffix scaling by 1024, 1024^2, 1024^3). Written from the documentation, shares nothing with the model;
+# cross-checked against the installed `git config --type=…` (`crosscheck_with_git`). A value is what git's file
+# parser hands over (None: key without value).
+class Unjudged(Exception):
+    """The documentation does not say what the effective value is (git itself rejects the value, or it is not a
+    value of the option's type)."""
+
+
+_O_INT = re.compile(r"^[ \t\n\v\f\r]*([+-]?)(0[xX][0-9a-fA-F]+|0[0-7]*|[1-9][0-9]*)([kKmMgG]?)$")
+_O_FLOAT = re.compile(r"^[+-]?(?:[0-9]+\.?[0-9]*|\.[0-9]+)(?:[eE][+-]?[0-9]+)?$")
+_O_UNIT = {"": 1, "k": 1024, "m": 1024 ** 2, "g": 1024 ** 3}
+
+
+def o_read_int(v):
+    """git's integer, or None when git rejects the text."""
+    m = _O_INT.match(v) if v is not None else None
+    if not m:
+        return None
+    digits = m.group(2)
+    n = int(digits, 16) if digits[:2] in ("0x", "0X") else int(digits, 8) if digits.startswith("0") else int(digits)
+    if n >= 2 ** 63:
+        return None
+    n = (-n if m.group(1) == "-" else n) * _O_UNIT[m.group(3).lower()]
+    return n if -2 ** 63 <= n < 2 ** 63 else None
+
+
+def o_read_bool(v):
+    if v is None or v.lower() in ("true", "yes", "on"):
+        return "true"
+    if v.lower() in ("false", "no", "off", ""):
+        return "false"
+    n = o_read_int(v)
+    if n is None or not -2 ** 31 <= n < 2 ** 31:
+        return None
+    return "true" if n else "false"
+
+
+def o_kind(o):
+    if o in O_BUILTIN or o == "color-only":
+        return "bool"
+    return PROBES.get(o, "string")
+
+
+def o_canon(o, v):
+    """The reading of value `v` for option `o`: decimal / true|false / the text; Unjudged when git rejects it."""
+    kind = o_kind(o)
+    if kind == "int":
+        n = o_read_int(v)
+        if n is None:
+            raise Unjudged("git-rejects-value")
+        if n < 0:
+            raise Unjudged("negative-size")
+        return str(n)
+    if kind == "bool":
+        b = o_read_bool(v)
+        if b is None:
+            raise Unjudged("git-rejects-value")
+        return b
+    if kind == "float":
+        if v is None or not (_O_FLOAT.match(v) or v.lstrip("+-").lower() in ("inf", "infinity", "nan")):
+            raise Unjudged("not-a-float")
+        return v
+    return "" if v is None else v
+
+
 # ------------------------------------------------------------------ configuration -> runs
 def cfg_key(cfg):
     return hashlib.sha256(json.dumps(cfg, sort_keys=True).encode()).hexdigest()[:16]
 
 
 def gitconfig_text(gc):
+    """`gc["raw"]` (optional): {"m:<key>" | "s:<section>:<key>": the text that follows the key on its line, e.g.
+    " = 3k ; note" or "" for a key without value}; every other value is written double-quoted."""
+    raw = gc.get("raw") or {}
+
+    def line(tag, k, v):
+        if tag in raw:
+            return f"    {k}{raw[tag]}"
+        return f"    {k}" if v is None else f"    {k} = {quote_git(v)}"
     out = []
     if gc["main"]:
         out.append("[delta]")
-        out += [f"    {k} = {quote_git(v)}" for k, v in gc["main"]]
+        out += [line("m:" + k, k, v) for k, v in gc["main"]]
     for name, kvs in gc["sections"]:
         out.append(f'[delta "{name}"]')
-        out += [f"    {k} = {quote_git(v)}" for k, v in kvs]
+        out += [line(f"s:{name}:{k}", k, v) for k, v in kvs]
     for k, v in gc["other"]:
         parts = k.split(".")
         sec, name = parts[0], parts[-1]
@@ -223,12 +307,13 @@ def base_cfg():
 
 # ------------------------------------------------------------------ model side
 def git_file_field(gc):
+    """values are what git's file parser hands over (quotes, escapes, comments removed); None: key without value."""
     if gc is None:
         return "-"
-    lines = [f"m\t{k}\t{v}" for k, v in gc["main"]]
+    lines = [f"mb\t{k}" if v is None else f"m\t{k}\t{v}" for k, v in gc["main"]]
     for name, kvs in gc["sections"]:
         lines.append(f"s\t{name}")
-        lines += [f"s\t{name}\t{k}\t{v}" for k, v in kvs]
+        lines += [f"sb\t{name}\t{k}" if v is None else f"s\t{name}\t{k}\t{v}" for k, v in kvs]
     lines += [f"o\t{k}\t{v}" for k, v in gc["other"]]
     return hx("\n".join(lines))
 
@@ -279,7 +364,7 @@ def section_flag_groups(cfg, builtin_names):
             main[k] = v
     secs = [("", main)] + [(n, dict(kvs)) for n, kvs in gc["sections"]]
     for name, kv in secs:
-        fl = sorted(k for k, v in kv.items() if k in builtin_names and v == "true")
+        fl = sorted(k for k, v in kv.items() if k in builtin_names and o_read_bool(v) == "true")
         if len(fl) >= 2:
             groups.append(fl)
     return groups
@@ -301,15 +386,16 @@ def pis_for(cfg, builtin_names, iteration):
 
 # ------------------------------------------------------------------ direct oracle
 def o_git(cfg):
-    """The git config as the documentation sees it: nothing at all under --no-gitconfig."""
+    """The git config as the documentation sees it: nothing at all under --no-gitconfig; every value as git reads
+    it for the option's type (`o_canon`; Unjudged when git itself rejects a value)."""
     if cfg["no_gitconfig"] or cfg["config"] is None:
         return {"main": {}, "sections": {}, "other": {}}
     main = {}
     for k, v in cfg["config"]["main"]:
-        main[k] = v
+        main[k] = o_canon(k, v)
     for k, v in cfg["params"]:         # `git -c delta.k=v` overrides the file
-        main[k] = v
-    return {"main": main, "sections": {n: dict(kvs) for n, kvs in cfg["config"]["sections"]},
+        main[k] = o_canon(k, v)
+    return {"main": main, "sections": {n: {k: o_canon(k, v) for k, v in kvs} for n, kvs in cfg["config"]["sections"]},
             "other": dict(cfg["config"]["other"])}
 
 
@@ -901,6 +987,182 @@ def family_post(thorough):
     return out
 
 
+# ------------------------------------------------------------------ value spellings
+# type -> [(class, what follows the key on its line in the file, the value git's file parser hands over)]
+SPELLINGS = {
+    "usize": [
+        ("plain", " = 12", "12"), ("unit-suffix-k", " = 3k", "3k"), ("unit-suffix-K", " = 2K", "2K"),
+        ("unit-suffix-m", " = 1m", "1m"), ("hex", " = 0x1F", "0x1F"), ("octal", " = 017", "017"),
+        ("plus-sign", " = +9", "+9"), ("quoted", ' = "13"', "13"), ("comment", " = 14 ; note", "14"),
+        ("comment-hash", " = 19 # note", "19"), ("leading-space", ' = " 16"', " 16"), ("zero-with-unit", " = 0k", "0k"),
+        ("no-blanks", "=18", "18"),
+        # git: "fatal: bad numeric config value"
+        ("empty", " =", ""), ("bare-key", "", None), ("unit-kb", " = 1kb", "1kb"), ("word", " = abc", "abc"),
+        ("fraction", " = 1.5", "1.5"), ("trailing-space", ' = "7 "', "7 "),
+        # an integer for git, not a size
+        ("negative", " = -1", "-1"),
+    ],
+    "bool": [
+        ("true", " = true", "true"), ("true-upper", " = TRUE", "TRUE"), ("yes", " = yes", "yes"), ("yes-mixed", " = Yes", "Yes"),
+        ("on", " = on", "on"), ("on-upper", " = ON", "ON"), ("one", " = 1", "1"), ("two", " = 2", "2"),
+        ("minus-one", " = -1", "-1"), ("bare-key", "", None), ("quoted-yes", ' = "yes"', "yes"),
+        ("comment", " = yes ; note", "yes"), ("hex-one", " = 0x1", "0x1"), ("one-with-unit", " = 1k", "1k"),
+        ("false", " = false", "false"), ("no", " = no", "no"), ("no-upper", " = NO", "NO"), ("off", " = off", "off"),
+        ("zero", " = 0", "0"), ("double-zero", " = 00", "00"), ("empty", " =", ""),
+        # git: "fatal: bad boolean config value"
+        ("letter-t", " = t", "t"), ("word", " = maybe", "maybe"), ("too-big", " = 2147483648", "2147483648"),
+    ],
+    "f64": [
+        ("plain", " = 0.3", "0.3"), ("no-int-part", " = .5", ".5"), ("no-frac-part", " = 5.", "5."),
+        ("exponent", " = 5e-1", "5e-1"), ("exponent-upper", " = 25E-2", "25E-2"), ("plus-sign", " = +0.25", "+0.25"),
+        ("quoted", ' = "0.75"', "0.75"), ("comment", " = 0.5 ; note", "0.5"), ("integer", " = 1", "1"),
+        # not in the float syntax
+        ("unit", " = 1k", "1k"), ("hex", " = 0x1", "0x1"), ("empty", " =", ""), ("bare-key", "", None),
+        ("leading-space", ' = " 0.5"', " 0.5"), ("suffix-f", " = 0.5f", "0.5f"),
+    ],
+    "string": [
+        ("plain", " = abc", "abc"), ("quoted-blank", ' = "a b"', "a b"), ("part-quoted", ' = a "b c" d', "a b c d"),
+        ("escaped-backslash", " = a\\\\b", "a\\b"), ("escaped-quote", ' = a\\"b', 'a"b'), ("comment-hash", " = a # c", "a"),
+        ("comment-semicolon", " = a ; c", "a"), ("quoted-hash", ' = "a # c"', "a # c"), ("empty", " =", ""),
+        ("bare-key", "", None), ("quoted-trailing-blanks", ' = "a   "', "a   "), ("non-ascii", " = é", "é"),
+        ("no-blanks", "=xyz", "xyz"),
+    ],
+}
+SPELLING_PROBES = {   # type -> probe options (option, builtin feature that sets it or None)
+    "usize": [("max-line-length", None), ("tabs", "raw"), ("diff-stat-align-width", None)],
+    "bool": [("navigate", "navigate"), ("keep-plus-minus-markers", "raw"), ("line-numbers", "line-numbers"),
+             ("hyperlinks", "hyperlinks")],
+    "f64": [("max-line-distance", None)],
+    "string": [("file-modified-label", "navigate"), ("right-arrow", None), ("pager", None)],
+}
+SPELLING_PLAIN = {   # type -> plain values of the other sources
+    "usize": {"main": "33", "a": "44", "b": "55"}, "f64": {"main": "0.11", "a": "0.22", "b": "0.33"},
+    "string": {"main": "Vmain", "a": "Va", "b": "Vb"},
+}
+SPELLING_PLACEMENTS = ["main>custom", "main-only", "custom>custom", "custom>builtin", "custom-by-main-features>custom",
+                       "params>main", "params>custom"]
+
+
+def spelling_cfg(ty, cls, raw, value, probe, builtin, placement):
+    """One configuration: the spelled value in the highest-priority source that sets `probe`, plain values below."""
+    if ty == "bool":
+        b = o_read_bool(value)
+        other = "false" if b == "true" else "true"
+        plain = {"main": other, "a": other, "b": other}
+    else:
+        plain = SPELLING_PLAIN[ty]
+    c = base_cfg()
+    c["probes"] = [probe]
+    c["config"]["raw"] = {}
+    src, _, below = placement.partition(">")
+    if src == "params":
+        c["params"].append([probe, value])
+        if below == "main":
+            c["config"]["main"].append([probe, plain["main"]])
+        else:
+            add_section(c, "a", [(probe, plain["a"])])
+            c["features"] = "a"
+        c["spelling"] = dict(type=ty, cls=cls, source="params", option=probe, value=value)
+    elif src in ("main", "main-only"):
+        c["config"]["main"].append([probe, value])
+        c["config"]["raw"]["m:" + probe] = raw
+        if below == "custom":
+            add_section(c, "a", [(probe, plain["a"])])
+            c["features"] = "a"
+        c["spelling"] = dict(type=ty, cls=cls, source="main", option=probe, value=value)
+    else:
+        add_section(c, "a", [(probe, value)])
+        c["config"]["raw"][f"s:a:{probe}"] = raw
+        if below == "builtin":
+            c["features"] = builtin + " a"
+        else:
+            add_section(c, "b", [(probe, plain["b"])])
+            if src == "custom-by-main-features":
+                c["config"]["main"].append(["features", "b a"])
+            else:
+                c["features"] = "b a"
+        c["spelling"] = dict(type=ty, cls=cls, source="custom", section="a", option=probe, value=value)
+    c["family"] = f"spelling/{ty}/{cls}/{placement}/{probe}"
+    return c
+
+
+def family_spellings(thorough, rng):
+    """Value *spellings* per getter type (git's integer syntax with unit suffixes / hex / octal / sign, the boolean
+    words in any case, numbers as booleans, a key without value, the empty value, float syntax, quotes / escapes /
+    inline comments) placed in every kind of git config source: the main [delta] section of the file, a custom
+    feature (enabled by --features or by [delta] features, above another custom feature or a builtin one),
+    GIT_CONFIG_PARAMETERS — each time as the highest-priority source that sets the option, with plain, different
+    values in the sources below, so that a source which "does not count" because of its spelling is visible."""
+    out = []
+    for ty, rows in SPELLINGS.items():
+        seen_params = set()
+        for cls, raw, value in rows:
+            for placement in SPELLING_PLACEMENTS:
+                probes = list(SPELLING_PROBES[ty])
+                if placement == "custom>builtin":
+                    probes = [p for p in probes if p[1]]
+                if placement.startswith("params"):
+                    # the text travels in an environment variable: no file syntax; delta's regex wants [^']+
+                    if value is None or value == "" or "'" in value or raw.lstrip(" =") != value:
+                        continue
+                    if (value, placement) in seen_params:
+                        continue
+                    seen_params.add((value, placement))
+                if cls == "negative":
+                    probes = [p for p in probes if p[0] != "tabs"]     # `tabs = -1`: capacity overflow (not C13)
+                if ty == "bool" and cls in ("letter-t", "word", "too-big") and placement == "custom>builtin":
+                    continue
+                if not probes:
+                    continue
+                if not thorough:
+                    probes = [rng.choice(probes)]
+                for probe, builtin in probes:
+                    out.append(spelling_cfg(ty, cls, raw, value, probe, builtin, placement))
+    # feature flags spelled: `[delta] navigate = on`, `[delta "a"] line-numbers` (no value), `side-by-side = 1` …
+    for cls, raw, value in SPELLINGS["bool"]:
+        b = o_read_bool(value)
+        if b is None:
+            continue
+        for where in ("main", "custom", "custom-by-main-features"):
+            flags = ["navigate", "line-numbers", "side-by-side", "raw"]
+            for flag in (flags if thorough else [rng.choice(flags)]):
+                c = base_cfg()
+                c["config"]["raw"] = {}
+                c["probes"] = ["navigate", "file-modified-label", "line-numbers", "side-by-side", "keep-plus-minus-markers",
+                               "file-style"]
+                if where == "main":
+                    c["config"]["main"].append([flag, value])
+                    c["config"]["raw"]["m:" + flag] = raw
+                    if b == "false":
+                        c["features"] = flag          # the main section switches the option off again
+                    c["spelling"] = dict(type="bool", cls=cls, source="main", option=flag, value=value)
+                else:
+                    add_section(c, "a", [(flag, value)])
+                    c["config"]["raw"][f"s:a:{flag}"] = raw
+                    if where == "custom":
+                        c["features"] = (flag + " a") if b == "false" else "a"
+                    else:
+                        c["config"]["main"].append(["features", (flag + " a") if b == "false" else "a"])
+                    c["spelling"] = dict(type="bool", cls=cls, source="custom", section="a", option=flag, value=value)
+                c["family"] = f"spelling/flag/{cls}/{where}/{flag}"
+                out.append(c)
+    # the `features` key itself, unquoted / partly quoted / with a comment
+    for cls, raw in (("unquoted", " = a b"), ("part-quoted", ' = "a" b'), ("comment", " = a b # c"), ("tabs", " =\ta \t b")):
+        for where in ("main", "custom"):
+            g = graph_cfg({})
+            g["config"]["raw"] = {}
+            if where == "main":
+                g["config"]["main"].append(["features", "a b"])
+                g["config"]["raw"]["m:features"] = raw
+            else:
+                add_section(g, "c", [("features", "a b")])
+                g["config"]["raw"]["s:c:features"] = raw
+                g["features"] = "c"
+            g["family"] = f"spelling/features-key/{cls}/{where}"
+            out.append(g)
+    return out
+
+
 def random_cfg(rng):
     """thorough tier: a random configuration over the same vocabulary (up to 4 custom nodes)."""
     names = ["a", "b", "c", "d"]
@@ -917,21 +1179,30 @@ def random_cfg(rng):
     def val(o):
         return rng.choice(texts[PROBES[o]])
 
+    spelled = {"int": ["1k", "0x21", "+34", "040", "2K"], "bool": ["yes", "on", "1", "no", "off", "0", "TRUE", None],
+               "float": ["1e-1", ".2", "3."]}
+
+    def fval(o):
+        """a value for a source of the file: now and then in another spelling git accepts for the type"""
+        if PROBES[o] in spelled and o != "width" and rng.random() < 0.3:      # width: an Option<String>, validated later
+            return rng.choice(spelled[PROBES[o]])
+        return val(o)
+
     def feat_list(k):
         pool = names + builtins
         return " ".join(rng.choice(pool) for _ in range(rng.randint(1, k)))
     for f in names:
-        kvs = [(o, val(o)) for o in probes if rng.random() < 0.35]
+        kvs = [(o, fval(o)) for o in probes if rng.random() < 0.35]
         if rng.random() < 0.4:
             kvs.append(("features", feat_list(2)))
         if rng.random() < 0.2:
             b = rng.choice(builtins)
             if b not in [k for k, _ in kvs]:
-                kvs.append((b, "true"))
+                kvs.append((b, rng.choice(["true", "true", "yes", "1", None])))
         add_section(c, f, kvs)
     for o in probes:
         if rng.random() < 0.12:
-            c["config"]["main"].append([o, val(o)])
+            c["config"]["main"].append([o, fval(o)])
         if rng.random() < (0.5 if any(k == o for k, _ in c["config"]["main"]) else 0.06) \
                 and o not in [k for k, _ in c["params"]]:
             c["params"].append([o, val(o)])
@@ -975,7 +1246,7 @@ def irregular(cfg):
     for name, kvs in gc["sections"]:
         if name in O_BUILTIN:
             for k, v in kvs:
-                if k == "features" or (k in O_BUILTIN and v == "true"):
+                if k == "features" or (k in O_BUILTIN and o_read_bool(v) == "true"):
                     return True
     return False
 
@@ -988,11 +1259,17 @@ def needed_renderings(cfgs):
         for o, v in c["cli"]:
             texts.setdefault(o, set()).add("true" if v is None else v)
         gc = c["config"] or {"main": [], "sections": [], "other": []}
+
+        def add_git(k, v):
+            try:
+                texts.setdefault(k, set()).add(o_canon(k, v))
+            except Unjudged:
+                pass
         for k, v in gc["main"] + c["params"]:
-            texts.setdefault(k, set()).add(v)
+            add_git(k, v)
         for _, kvs in gc["sections"]:
             for k, v in kvs:
-                texts.setdefault(k, set()).add(v)
+                add_git(k, v)
         other = [v for _, v in gc["other"]]
         for o in c["probes"]:
             if o in SBS_DEFAULT:
@@ -1119,8 +1396,16 @@ def evaluate(ctx, rep, cfgs, runs):
             rep.count("nondeterministic")
 
         # --- direct oracle 2: the documented precedence
+        primary = None
         if not irregular(c):
-            primary = oracle_expected(c, defaults, impl, primary_only=True)[0]
+            try:
+                primary = oracle_expected(c, defaults, impl, primary_only=True)[0]
+            except Unjudged as u:
+                rep.count("oracle:not-judged-" + str(u))
+        if c.get("spelling"):
+            sp = c["spelling"]
+            rep.count(f"spelling:{sp['type']}:{sp['source']}:{'judged' if primary else 'git-rejects'}")
+        if primary is not None:
             admissible = None
             for ob in obs:
                 unjudged = {o for o, k in primary[1].items() if k == "builtin-dynamic"}
@@ -1146,6 +1431,20 @@ def evaluate(ctx, rep, cfgs, runs):
                     sig = "no-gitconfig-bare:builtin-feature-children-not-gathered"
                     what = (f"{bad}: with --no-gitconfig (and no --config) the features named by --features / "
                             f"DELTA_FEATURES are not expanded (a builtin feature's own sub-features are lost)")
+                elif c.get("spelling"):
+                    sp = c["spelling"]
+                    gone = without_spelled(c)
+                    try:
+                        alt = oracle_expected(gone, defaults, impl, primary_only=True)[0][0]
+                    except Unjudged:
+                        alt = {}
+                    ignored = ob == {o: v for o, v in alt.items() if o in ob}
+                    sig = f"spelling-{'ignored' if ignored else 'misread'}:{sp['source']}:{sp['type']}:{sp['cls']}"
+                    what = (f"{sp['option']} = {sp['value']!r} ({sp['cls']}) in source `{sp['source']}` is "
+                            + ("treated as if the source did not set the option: a lower-priority source / the default decides"
+                               if ignored else "not read as git reads it")
+                            + f"; {bad}: observed {[ob[o] for o in bad]}, git's reading by the documented precedence gives "
+                              f"{[exp.get(o) for o in bad]}")
                 else:
                     kinds = sorted({primary[1][o] for o in bad})
                     sig = f"wrong-value:{fam.split('/')[0]}:expected-from-{'+'.join(kinds)}"
@@ -1153,7 +1452,7 @@ def evaluate(ctx, rep, cfgs, runs):
                 rep.violation(sig, what, replay)
                 rep.count("oracle-mismatch")
                 break
-        else:
+        elif irregular(c):
             rep.count("oracle:skipped-irregular")
 
         # --- correspondence with the model
@@ -1189,6 +1488,68 @@ def evaluate(ctx, rep, cfgs, runs):
                     rep.count("model:order-dependent")
 
 
+def without_spelled(c):
+    """The configuration with the spelled entry (c["spelling"]) removed."""
+    g = json.loads(json.dumps(c))
+    sp = g.pop("spelling")
+    o = sp["option"]
+    if sp["source"] == "params":
+        g["params"] = [kv for kv in g["params"] if kv[0] != o]
+    elif sp["source"] == "main":
+        g["config"]["main"] = [kv for kv in g["config"]["main"] if kv[0] != o]
+    else:
+        for sec in g["config"]["sections"]:
+            if sec[0] == sp["section"]:
+                sec[1] = [kv for kv in sec[1] if kv[0] != o]
+    return g
+
+
+def crosscheck_with_git(rep):
+    """The oracle's tables against the installed git (when there is one): (1) every raw spelling of SPELLINGS parses
+    to the value the table says (`git config --file … -z --list`); (2) `o_read_int` / `o_read_bool` agree with
+    `git config --type=int|bool` on every value of the tables (a GIT_CONFIG_PARAMETERS pair, no file syntax
+    involved). A disagreement is a defect of this harness (reported as a broken tie, never as a finding about delta)."""
+    import shutil
+    import subprocess
+    import tempfile
+    git = shutil.which("git")
+    if not git:
+        rep.notes["git_crosscheck"] = "no git executable: skipped"
+        return
+    bad = []
+    n = 0
+    env = {"PATH": os.environ.get("PATH", ""), "HOME": os.path.join(BUILD, "home"), "GIT_CONFIG_NOSYSTEM": "1",
+           "LC_ALL": "C"}
+    with tempfile.TemporaryDirectory() as d:
+        f = os.path.join(d, "c")
+        for ty, rows in SPELLINGS.items():
+            for cls, raw, value in rows:
+                n += 1
+                with open(f, "w", encoding="utf-8") as fh:
+                    fh.write("[x]\n    k%s\n" % raw)
+                p = subprocess.run([git, "config", "--file", f, "-z", "--list"], env=env, capture_output=True)
+                got = p.stdout.decode("utf-8", "replace")
+                want = "x.k\0" if value is None else f"x.k\n{value}\0"
+                if p.returncode != 0 or got != want:
+                    bad.append(dict(check="raw-spelling", type=ty, cls=cls, raw=raw, table=value, git=got))
+                if value is None or "'" in value or not value:
+                    continue
+                for gty, reader in (("int", o_read_int), ("bool", o_read_bool)):
+                    if (ty, gty) not in (("usize", "int"), ("bool", "bool")):
+                        continue
+                    e = dict(env, GIT_CONFIG_PARAMETERS=f"'x.k'='{value}'")
+                    p = subprocess.run([git, "config", "--type=" + gty, "--get", "x.k"], env=e, capture_output=True, cwd=d)
+                    g = p.stdout.decode().strip() if p.returncode == 0 else None
+                    mine = reader(value)
+                    mine = None if mine is None else str(mine)
+                    if g != mine:
+                        bad.append(dict(check="reading", type=gty, value=value, table=mine, git=g))
+    rep.corr_case("opts.oracle-readings-vs-git", not bad, dict(
+        what="the oracle's reading of git config values disagrees with the installed git (harness defect, not a "
+             "finding about delta)", disagreements=bad[:10]))
+    rep.notes["git_crosscheck"] = f"{n} spellings checked against {git}"
+
+
 def unexpanded_matches(c, ob, defaults, impl):
     """Does the observation equal what the documented order gives when the features named by
     --features / DELTA_FEATURES are taken without their children?"""
@@ -1213,21 +1574,31 @@ def run(ctx, rep):
                 "bool, usize, f64; one for f64) alone / under a command-line value / above a feature / under --no-gitconfig, "
                 "the `features` key and feature flags in both places; (7) side-by-side (6 ways of enabling it) x minus-style / "
                 "minus-emph-style starting with `normal ` set nowhere / [delta] / GIT_CONFIG_PARAMETERS / custom feature / "
-                "command line, and color-only x side-by-side (the statements of set_options around the macro). Every configuration "
+                "command line, and color-only x side-by-side (the statements of set_options around the macro); (8) value spellings per "
+                "getter type (git integers with k/m/g suffix, hex, octal, sign, quotes, comments; boolean words in any case, numbers, "
+                "a key without value, the empty value; float syntax; strings with quotes / escapes / comments; values git rejects) x "
+                "7 placements as the highest-priority source ([delta] over a feature / alone, custom feature over a custom / builtin "
+                "feature, enabled by --features or [delta] features, GIT_CONFIG_PARAMETERS over [delta] / over a feature) x the probe "
+                "options of the type (quick: one drawn from ctx.rng), feature flags and the `features` key spelled likewise; the oracle "
+                "reads every value as git does (own reader, cross-checked against the installed git). Every configuration "
                 "is run in >= 3 fresh processes. non-trivial = at least two sources set a probe, or features are "
                 "enabled, or --no-gitconfig; distinct by configuration hash")
     thorough = not ctx.quick()
     cfgs = (family_sources(thorough) + family_graphs(thorough) + family_flags(thorough) + family_nogitconfig(thorough)
-            + family_env(thorough) + family_both(thorough) + family_post(thorough))
+            + family_env(thorough) + family_both(thorough) + family_post(thorough)
+            + family_spellings(thorough, ctx.rng))
     if thorough:
         cfgs += [random_cfg(ctx.rng) for _ in range(6000)]
     rep.exhaustive = dict(lattice_configs=len(cfgs), runs_per_config=ctx.n(3, 6))
     rep.extra_trusted += [
-        "clap (which options count as supplied), libgit2 (file parsing, value typing), the GIT_CONFIG_PARAMETERS "
-        "regex, split_whitespace: inputs of the model",
+        "clap (which options count as supplied), libgit2's file syntax (quotes, escapes, comments, continuation "
+        "lines -> value; the harness passes the value and checks its own tables against the installed git), the "
+        "GIT_CONFIG_PARAMETERS regex, split_whitespace: inputs of the model; the typed readers (git integer / boolean "
+        "syntax, Rust parse::<usize|f64>) are modelled (lean/DeltaModel/OptionsValues.lean)",
         "run-to-run determinism of the real process is validated by repetition only (hash seeds are runtime)",
         "show-config rendering of a value is taken from the binary itself (same value given on the command line)",
     ]
+    crosscheck_with_git(rep)
     evaluate(ctx, rep, cfgs, ctx.n(3, 6))
 
 
